@@ -50,7 +50,9 @@ package scorch
 //@   ensures implies(result1 == nil && result0 != nil, result0.pnum < segCount(it) && implies(old(it.pstarted), result0.pnum > old(it.plast)) && it.pstarted && it.plast == result0.pnum && !it.pdone)
 //@   ensures implies(result1 == nil && result0 == nil, it.pdone && it.pstarted == old(it.pstarted) && it.plast == old(it.plast))
 //@ assume func segment.PostingsIterator.Advance(it, docNum)
-//@   requires it != nil && (it.pdone || !it.pstarted || docNum > it.plast)
+// (doc numbers within a segment are 32 bit: zapx and scorch's own bitmap iterators truncate the target
+// to uint32, so a larger target would wrap around and land BEFORE it)
+//@   requires it != nil && (it.pdone || !it.pstarted || docNum > it.plast) && docNum < 4294967296
 //@   modifies it.pstarted, it.plast, it.pdone, segment.Posting.pnum
 //@   ensures implies(result1 != nil, result0 == nil) && implies(emptyIt(it), result0 == nil)
 //@   ensures implies(old(it.pdone) && result1 == nil, result0 == nil)
